@@ -963,12 +963,16 @@ func (c *Ctx) expandedStmtLists(fd *ast.FuncDecl, depth int) [][]ast.Stmt {
 	info := p.TypesInfo
 	recv := info.Defs[fd.Recv.List[0].Names[0]]
 	for _, st := range fd.Body.List {
-		es, ok := st.(*ast.ExprStmt)
-		if !ok {
-			continue
+		var call *ast.CallExpr
+		switch x := st.(type) {
+		case *ast.ExprStmt:
+			call, _ = x.X.(*ast.CallExpr)
+		case *ast.AssignStmt: // names := m.sortedNames()
+			if len(x.Rhs) == 1 {
+				call, _ = unparen(x.Rhs[0]).(*ast.CallExpr)
+			}
 		}
-		call, ok := es.X.(*ast.CallExpr)
-		if !ok {
+		if call == nil {
 			continue
 		}
 		se, ok := unparen(call.Fun).(*ast.SelectorExpr)
